@@ -16,16 +16,6 @@ theorem runActs_append (c : Val) (xs ys : List PAct) :
     rw [ih]
     simp [List.append_assoc]
 
-/-- the values written by a sequence of accesses (`Clear` writes `""`). -/
-def writes : List PAct → List Val
-  | [] => []
-  | .read :: as => writes as
-  | .set v :: as => v :: writes as
-  | .clear :: as => 0 :: writes as
-
-/-- the last value written, `c` when nothing was written. -/
-def lastWrite (c : Val) (as : List PAct) : Val := (writes as).getLast?.getD c
-
 theorem getLast?_cons_getD (v c : Val) (l : List Val) :
     (v :: l).getLast?.getD c = l.getLast?.getD v := by
   cases l with
